@@ -5,7 +5,7 @@ cd "$(dirname "$0")" || exit 2
 export GOFLAGS=-mod=mod GOPROXY=off GOSUMDB=off GOTOOLCHAIN=local
 set -e
 mkdir -p bin
-( cd sim && go build -cover -coverpkg=github.com/intel/fastgo/... -tags verif -o ../bin/fgsim-cover ./cmd/fgsim )
+( cd sim && go build -cover -coverpkg=github.com/intel/fastgo/...,fgverif/cmd/fgsim -tags verif -o ../bin/fgsim-cover ./cmd/fgsim )
 COV=$(mktemp -d)
 trap 'rm -rf "$COV"' EXIT
 NSH=${COVER_SHARDS:-24}
@@ -22,5 +22,8 @@ go tool covdata textfmt -i=$COV -o $COV/cov.txt
  echo
  echo "functions below 100%:"
  ( cd sim && go tool cover -func=$COV/cov.txt ) | grep intel/fastgo | grep -v "100.0%" | sed 's#github.com/intel/fastgo/##'
+ echo
+ echo "uncovered blocks (file:startline.col,endline.col statements):"
+ awk 'NR>1 {split($0,a," "); k=a[1]; c[k]+=a[3]; n[k]=a[2]} END {for (k in c) if (c[k]==0 && k ~ /intel\/fastgo/ && k !~ /_verif.go|moffat.go|token.go/) print k, n[k]}' $COV/cov.txt | sed 's#github.com/intel/fastgo/##' | sort -t: -k1,1 -k2,2n
 } > evidence/coverage_summary.txt
 cat evidence/coverage_summary.txt | head -80
